@@ -221,12 +221,12 @@ func init() {
 		Prop: "C14", World: "ring", Gen: gen(false), NewScript: func() interface{} { return &Script{} }, Run: Run, Shrink: shrink,
 		MustProbes: []string{"reserve_wrapped"},
 		Rule:       "script = seeded sequence of producer ops (write, reserve+commit, fill from a chunked reader) and consumer ops (read, peek/wait+commit, drain to a writer), ring size 16-64 KiB (an eighth of the runs with a configured size that the library rounds up to it: below the 16 KiB minimum or not a power of two), chunk sizes 1..size/2, total 0..8 ring sizes; schedule = seeded random-walk / PCT over every sync, atomic and harness yield point. A run is non-trivial if bytes were produced and at least 3 task switches occurred; distinct = distinct hash of the (task, yield kind) sequence at switches.",
-		Real:       real, Stub: stub, Level: "exploration", QuickRuns: 300000, ThoroughRuns: 20000000, Assumptions: assumptions,
+		Real:       real, Stub: stub, Level: "exploration", QuickRuns: 150000, ThoroughRuns: 20000000, Assumptions: assumptions,
 	})
 	world.Register(&world.Def{
 		Prop: "C15", World: "ring", Gen: gen(true), NewScript: func() interface{} { return &Script{} }, Run: Run, Shrink: shrink,
 		MustProbes: []string{"closed_by_director"},
 		Rule:       "as C14 plus 0-3 closer tasks calling Close 1-3 times at scheduler-chosen moments, consumers that ask for more than is produced, chunk sizes up to the ring size in a quarter of the runs, and one more call of every kind after Close. Oracle is the exact parked-task predicate at quiescence. Non-trivial/distinct as for C14.",
-		Real:       real, Stub: stub, Level: "exploration", QuickRuns: 300000, ThoroughRuns: 20000000, Assumptions: assumptions,
+		Real:       real, Stub: stub, Level: "exploration", QuickRuns: 150000, ThoroughRuns: 20000000, Assumptions: assumptions,
 	})
 }
